@@ -10,6 +10,8 @@ import Rl.Spec.Doc
 import Rl.Lemmas.Keymap
 import Rl.Lemmas.LineBuffer
 import Rl.Lemmas.LineBufferSafe
+import Rl.Lemmas.EditorM
+import Rl.Lemmas.EditorOps
 open Rl Rl.Spec Rl.Spec.Doc
 
 /-! ### C01_binding_table — every (key, action) of the README tables is what the keymap returns
@@ -183,7 +185,24 @@ theorem C01_self_insert_once_partial (S : Segmenter) (U : UData) (cfg : EdCfg) (
   rw [hmt, hb, hp, splitAtByte_append] at hins
   simp only [Bool.false_eq_true, if_false] at hins
   rw [hx]
-  simp [editInsert, lb, EM.bind_apply, EM.pure_apply, hins, EM.get, EM.modify, logRender, highlightCharStep, updateHint, hh]
+  have hw : wp (do pure (); editInsert S U cfg c 1; pure Status.proceed : EM Status)
+      (fun st s' => st = .proceed ∧ s'.line.buf = x ++ [c] ++ z ∧ s'.line.pos = blen x + c.utf8Size)
+      (fun _ _ => False) s := by
+    simp only [wp_bind, wp_pure]
+    refine wp_mono (editInsert_spec S U cfg c 1 s) ?_ ?_
+    · intro _ s' ⟨r, l, ns, hi, hc⟩
+      rw [hins] at hi
+      cases hi
+      obtain ⟨hl, _⟩ := Ed.core_eq hc
+      rw [hl]
+      simp
+    · intro o s' ⟨_, hd⟩
+      rcases hd with ⟨_, e, he⟩ | ⟨h1, _⟩
+      · rw [hins] at he; cases he
+      · rw [hh] at h1; cases h1
+  obtain ⟨st, s', h1, h2, h3⟩ := returns_iff_wp.mpr hw
+  subst h2
+  exact ⟨s', h1, h3⟩
 
 /-! ### C01_motion_pure — no command documented as a motion changes the text -/
 
